@@ -55,7 +55,7 @@ Step ==
       IF ev.kind = "msg" THEN
          LET r == AmfHandle(amf, ev.bytes)
              noteStr == r.note IN
-         /\ PrintAll(r.complaints, k, noteStr)
+         /\ (IF Faulted THEN TRUE ELSE PrintAll(r.complaints, k, noteStr))
          /\ SendAll(j, r.out)
          /\ amf' = r.amf /\ j' = j + Len(r.out) /\ k' = k + 1
          /\ nbad' = nbad + Cardinality(r.complaints)
@@ -94,7 +94,9 @@ FinalNormal ==
    \cup {"session report " \o ToString(i) \o " is not the UE address / TEID / UPF address the network assigned: " \o ToString(EstReports[i])
            : i \in {x \in 1..Min2i(Len(EstReports), Len(Scn.ues)) : ~ReportOk(x)}}
 FinalFault ==
-   (IF result.kind = "exit" THEN {} ELSE {"the emulator hangs after the fault (no exit within the deadline)"})
+   (IF Fault.kind = "garbage" /\ NgapDecode(Fault.bytes).ok THEN {"HARNESS: the garbage is a decodable NGAP PDU for the specification"} ELSE {})
+   \cup (IF j > Fault.at THEN {} ELSE {"HARNESS: the run ended before the fault point was reached"})
+   \cup (IF result.kind = "exit" THEN {} ELSE {"the emulator hangs after the fault (no exit within the deadline)"})
    \cup (IF result.kind = "exit" /\ result.code = 0 THEN {"exit status 0 after the fault"} ELSE {})
    \cup (IF result.kind = "exit" /\ result.banner THEN {"completion banner printed after the fault"} ELSE {})
    \cup {"a session that was not obtained is reported: " \o ToString(EstReports[i])
